@@ -6,10 +6,11 @@ import writemodel as wm
 
 PROP = "C11"
 MODEL_TARGETS = ["Corr/WriteShow.vo"]
-THEOREMS = ["C11_second_write_same_text_partial", "C11_second_write_same_text_nowrap", "C11_standardize_idem", "C11_values_fixed", "C11_refreshed_is_text", "C11_refreshed_shapes", "C11_refresh_idem_values", "C11_data_tokens_fixed", "C11_cell_text_fixed", "C11_column_text_cycles", "C11_iter", "C11_iter_from_fix", "C11_reread_fixed_point_partial"]
+THEOREMS = ["C11_second_write_same_text_partial", "C11_second_write_same_text_nowrap", "C11_standardize_idem", "C11_values_fixed", "C11_refreshed_is_text", "C11_refreshed_shapes", "C11_refresh_idem_values", "C11_data_tokens_fixed", "C11_cell_text_fixed", "C11_column_text_cycles", "C11_iter", "C11_iter_from_fix", "C11_reread_fixed_point_partial",
+            "C11_read_canonical", "C11_canonical_determined", "C11_second_header", "C11_stable_itemb_ok", "C11_refresh_not_triggered", "C11_back_okb_of_Hfix", "C11_second_data_tokens", "C11_second_data_lines", "C11_second_cycle", "C11_cycle_fixed", "C11_cycles_same_text", "C11_cycles_iter"]
 ASSUMPTIONS = [
     "oracle: float(fmt % x) is a fixed point of x -> float(fmt % x) (printing a printed value again gives the same text)",
-    "composition through the header grammar (C04) and the data round trip (C01) is covered by the correspondence, not by a single theorem",
+    "second cycle (write of the object read back = the same text, any number of cycles) proved on the decidable domain cycle_hypsb (first written form already in normal form); outside it (text changes once, content numerically the same) and for the closure of the domain the chain correspondence is the only evidence",
 ]
 
 WOPTS = [dict(), dict(version=1.2), dict(version=2), dict(wrap=True), dict(version=1.2, wrap=True, data_width=40),
